@@ -867,6 +867,22 @@ def _run_maint(ctx):
                 ctx.chk("reencode-identical", enc2 == enc, f"first={enc!r} second={enc2!r}")                       # 2
             ctx.chk("finalized/add-allowed", ctx.raises(lambda: dec.add(probe, spare)),
                     "add() on a decoded (finalized) object did not raise")
+    # --- a copy taken from a record that was already encoded, changed, finalized: its own encoding decodes to IT
+    ok, cp3 = ctx.call("copy", mi.copy)
+    if ok:
+        ok, _ = ctx.call("copy/add", lambda: cp3.add(probe, spare))
+        if ok and names and names[0] != probe:
+            ctx.call("copy/rem", lambda: cp3.rem(names[0]))
+        ok, _ = ctx.call("finalize", cp3.finalize)
+        if ok:
+            want3 = view(cp3)
+            ok, enc3 = ctx.call("encode", cp3.to_json)
+            if ok:
+                ok, dec3 = ctx.call("decode", lambda: mm.MaintenanceInfo.from_json(enc3))
+                if ok:
+                    ctx.chk("copy/roundtrip-equal", dec3 is not None and view(dec3) == want3,
+                            f"changed copy of an encoded record: value {want3}, its text decodes to "
+                            f"{None if dec3 is None else view(dec3)}")
     for absent in ("", None):                                                                                       # 3
         ok, d0 = ctx.call("absent-decodes-none", lambda: mm.MaintenanceInfo.from_json(absent))
         if ok:
